@@ -103,7 +103,7 @@ Proof.
   - left. unfold authorize_par.
     destruct (key_of s uri) as [k0|]; [|reflexivity].
     destruct (par (st s) k0) as [pr|]; [|reflexivity].
-    match goal with |- context [if ?c then _ else _] => destruct c; [reflexivity|] end.
+    repeat match goal with |- context [if ?c then fail _ _ else _] => destruct c; [reflexivity|] end.
     rewrite authorize_core_pkce_old by assumption. reflexivity.
   - left. match goal with |- context [device_authorize cfg s ?x1 ?x2 ?x3 ?x4] => destruct (device_authorize_tables cfg s x1 x2 x3 x4) as [_ [_ [_ [Hp _]]]] end.
     now rewrite Hp.
